@@ -77,7 +77,7 @@ def body_factory(tier, seed):
                                    "verdict_alone": ref[i], "preceding_requests": prev,
                                    "history": [[rows[j][0], rows[j][1], rows[j][2], rows[j][4]] for j in order[:pos]][-40:]})
         # 3. threads: the requests split over 8 worker threads started together, cache cold
-        for rounds in range(2 if tier == "quick" else 6):
+        for rounds in range(4 if tier == "quick" else 8):
             M._validators.clear()
             order = list(range(len(rows)))
             rng.shuffle(order)
@@ -90,10 +90,16 @@ def body_factory(tier, seed):
                     r = rows[i]
                     got[i] = short(V.impl_verdict(r[0], r[1], r[2], r[4]))
             ths = [threading.Thread(target=work, args=(order[k::8],)) for k in range(8)]
-            for t in ths:
-                t.start()
-            for t in ths:
-                t.join()
+            import sys as _sys
+            old_si = _sys.getswitchinterval()
+            _sys.setswitchinterval(1e-6 if rounds % 2 else old_si)     # every other round: threads preempted constantly
+            try:
+                for t in ths:
+                    t.start()
+                for t in ths:
+                    t.join()
+            finally:
+                _sys.setswitchinterval(old_si)
             for i, v in got.items():
                 rep.count("t:%d" % i, nontrivial=False)
                 if v != ref[i]:
@@ -135,6 +141,37 @@ def body_factory(tier, seed):
                     rep.violation("C13:async:%s:%s:%s" % (r[0], r[1], r[2]),
                                   "%s %s %s: inline %r, in the executor %r, alone %r" % (r[0], r[1], r[2], res[0], res[1], ref[i]),
                                   {"kind": "async", "request": [r[0], r[1], r[2], r[4]], "inline": res[0], "executor": res[1], "alone": ref[i]})
+            # 4b. many validations in flight at once through the executor (one event loop serving many connections)
+            async def concurrent(sample):
+                M.ASYNC_VALIDATION = True
+
+                async def one(i):
+                    r = rows[i]
+                    msg = Call("i", r[2], copy.deepcopy(r[4])) if r[1] == "Call" else CallResult("i", copy.deepcopy(r[4]), r[2])
+                    try:
+                        await validate_payload(msg, r[0])
+                        return i, ("accept", None)
+                    except OCPPError as e:
+                        return i, ("reject", e.code)
+                    except Exception as e:  # noqa: BLE001
+                        return i, ("crash", "%s: %s" % (type(e).__name__, str(e)[:200]))
+                return await asyncio.gather(*[one(i) for i in sample])
+            import sys as _sys
+            old_si = _sys.getswitchinterval()
+            for rnd in range(2 if tier == "quick" else 6):
+                M._validators.clear()
+                _sys.setswitchinterval(1e-6 if rnd % 2 else old_si)
+                try:
+                    res_c = asyncio.run(concurrent(sample))
+                finally:
+                    _sys.setswitchinterval(old_si)
+                for i, v in res_c:
+                    rep.count("g:%d" % i, nontrivial=False)
+                    if v != ref[i]:
+                        r = rows[i]
+                        rep.violation("C13:concurrent:%s:%s:%s" % (r[0], r[1], r[2]),
+                                      "%s %s %s: %r with %d validations in flight in the executor, %r alone" % (r[0], r[1], r[2], v, len(sample), ref[i]),
+                                      {"kind": "async", "request": [r[0], r[1], r[2], r[4]], "concurrent": v, "alone": ref[i]})
         finally:
             M.ASYNC_VALIDATION = old
         # 5. the model: pure verdict of the same requests (the theorem says history cannot matter)
